@@ -136,6 +136,15 @@ def _invalid_periodic(rng):
 def generate(rng, tier):
     specs = []
     quick = tier == 'quick'
+    # --- the concrete objects of the Lean theorems C08_roundtrip_fails_k2 / C08_roundtrip_ok_k1 /
+    #     C08_exK2_lower, replayed on the real code
+    exk2 = {'bases': [{'order': 4, 'knots': [float(i) for i in range(-3, 10)], 'periodic': 2}],
+            'cps': [[0.0], [1.0], [4.0], [9.0], [16.0], [25.0]], 'rational': False}
+    exk1 = {'bases': [{'order': 3, 'knots': [-3.0, -2.0, 0.0, 1.0, 3.0, 4.0, 6.0, 7.0, 9.0], 'periodic': 1}],
+            'cps': [[0.0, 1.0], [4.0, -2.0], [9.0, 5.0], [-3.0, 7.0]], 'rational': False}
+    specs.append({'kind': 'roundtrip', 'obj': exk2, 'dir': 0, 'k': 2, 'lean': 'C08_roundtrip_fails_k2'})
+    specs.append({'kind': 'roundtrip', 'obj': exk1, 'dir': 0, 'k': 1, 'lean': 'C08_roundtrip_ok_k1'})
+    specs.append({'kind': 'lower', 'obj': exk2, 'dir': 0, 'target': -1, 'lean': 'C08_exK2_lower'})
     pks = [(p, k) for p in range(2, 7) for k in range(0, p - 1)]
     reps = 2 if quick else 25
     # --- every (p,k): curves, uniform / non-uniform, minimum sizes
